@@ -38,6 +38,16 @@
    a stuttering step and not represented.  reissuePackChan (0x8003 from a terminal) and sub-packaged
    messages (C05/C14) are not in this model; every message that reaches msgChan is complete.
 
+   Timeout of a command ([c_tmo]): onActiveEvent arms a timer iff OverTimeDuration >= 0; 0 means "the 3 s
+   default", only a negative duration arms none (such a call is answered by its response or by the
+   disconnect).  The model therefore has one bit; which positive duration is real time and not modelled.
+
+   The reader handles ONE parsed message per step ([RdRead] takes it, [RdPush] is its `c.msgChan <- msg`), so
+   a Read that delivered many messages is pushed message by message, interleaved with everything else,
+   including the writer falling behind (msgChan full: RdPush blocks).  stop() runs in the reader only:
+   msgChan is closed by its only sender, after that sender's last send (invariant invA.a_msg in
+   Proofs/Writer_proofs.v; a stop() started by the writer would break exactly this).
+
    Serial numbers: uint16, [next_serial].  Overwriting a record entry that is still in use (the serial
    counter went round while a command, its timer or its timeout message was still there) is reported as
    the observation [OReuse]; the theorems about matching assume it does not happen (65 536 frames would
